@@ -9,7 +9,11 @@
      g3  raw bytes (an IRI, a type name, a PEM block, a unit) are not a gob stream of any shape;
      g4  time.Time.GobEncode/GobDecode preserve instant, nanoseconds and zone offset.
    The per-type property tables are NOT modelled by hand: gmap / gunmap interpret the tables that the
-   translator regenerates from the source (Gen/GobW.v, Gen/GobR.v), passed in through [gob_env]. *)
+   translator regenerates from the source (Gen/GobW.v, Gen/GobR.v), passed in through [gob_env].
+   The same holds for the three leaf structs that are property maps of their own (Source, PublicKey,
+   Endpoints: the statements of T.GobEncode / ( *T).GobDecode are generated as gobw_leaf / gobr_leaf and
+   interpreted by the same gmap / gunmap, one level down: [wenc0] / [rdec0] are the codecs that do not
+   open a nested map) and for the order in which gobDecodeItem tries the shapes (gob_sniff). *)
 From AP.Model Require Import Prelude Vocab Bytes Layout Pred Dispatch GobTables.
 
 (* ------------------------------------------------------------------ the wire *)
@@ -142,10 +146,13 @@ Record gob_env := mk_gob_env {
   ge_sw_typer : sw_table; ge_sw_typer_default : bytes;         (* switch of GetItemByType = ItemTyperFunc *)
   ge_layout : kind -> list fdecl;                              (* Gen/Layout.layout_of *)
   ge_layout_endpoints : list fdecl;
+  ge_leaf_w : list (bytes * (list gwentry * list bytes));      (* Gen/GobW.gobw_leaf: statements and frame of T.GobEncode, T a leaf struct *)
+  ge_leaf_r : list (bytes * (list grentry * list bytes));      (* Gen/GobR.gobr_leaf: statements and frame of ( *T).GobDecode *)
+  ge_leaf_layouts : list (bytes * list fdecl);                 (* Gen/GobW.gob_leaf_layouts *)
+  ge_sniff : list gsniff;                                      (* Gen/GobR.gob_sniff: the shapes gobDecodeItem tries, in order *)
   (* hand-modelled code, as repaired (true) or as pinned (false) *)
-  ge_any_map_is_object : bool;      (* gobDecodeItem: every property map is an object (pinned: only with "type" or "id") *)
   ge_ptr_iri : bool;                (* gobEncodeItem writes an IRI held by pointer (pinned: writes nothing) *)
-  ge_endpoints_codec : bool         (* Endpoints.GobEncode/GobDecode write and read the six items (pinned: nothing) *)
+  ge_endpoints_codec : bool         (* Endpoints.GobEncode/GobDecode are property-map codecs (pinned: write and read nothing) *)
 }.
 
 Section WithEnv.
@@ -224,7 +231,7 @@ Inductive pfval :=
 | PNil                                   (* nil interface / nil slice / nil pointer *)
 | PItem (w : wire)
 | PItems (l : list wire)
-| PEndp (e : list (fid * wire))
+| PEndp (e : list (fid * pfval))              (* the fields of an Endpoints struct *)
 | PLeaf (v : fval).
 
 Definition olist {A} (o : option (list A)) : list A := match o with Some l => l | None => [] end.
@@ -272,50 +279,23 @@ Definition guard_eval (g : gguard) (has : bool) (ov : option pfval) : bool :=
 Definition wenc_mime (s : bytes) : wire := match s with [] => WEmpty | _ => WBytes s end.
 Definition wenc_nlv (c : nlv) : wire := match c with Some (x :: r) => WKvs (x :: r) | _ => WEmpty end.
 
-(* Source.GobEncode (object.go) *)
-Definition wenc_source (mt : bytes) (c : nlv) : wire :=
-  let m1 := match mt with [] => [] | _ => [(B "mediaType", wenc_mime mt)] end in
-  let m2 := match c with Some (_ :: _) => [(B "content", wenc_nlv c)] | _ => [] end in
-  match m1 ++ m2 with [] => WEmpty | m => WMap m end.
-
 Definition iri_nilish (s : bytes) : bool := match s with [] => true | _ => fold_eqb s nil_iri end.
-
-(* PublicKey.GobEncode (actor.go): owner goes through gobEncodeItem, so a nil IRI writes no bytes *)
-Definition wenc_pubkey (id owner pem : bytes) : wire :=
-  let m1 := match id with [] => [] | _ => [(B "id", wraw id)] end in
-  let m2 := match pem with [] => [] | _ => [(B "publicKeyPem", wraw pem)] end in
-  let m3 := match owner with [] => [] | _ => [(B "owner", if iri_nilish owner then WEmpty else wraw owner)] end in
-  match m1 ++ m2 ++ m3 with [] => WEmpty | m => WMap m end.
-
-(* Endpoints.GobEncode (actor.go): the six items, each under its jsonld term *)
-Definition endpoint_key (f : fid) : bytes :=
-  match find (fun d => fid_beq (fd_fid d) f) (ge_layout_endpoints E) with Some d => fd_term d | None => [] end.
 
 Fixpoint fget {A} (f : fid) (l : list (fid * A)) : option A :=
   match l with [] => None | (g, v) :: r => if fid_beq f g then Some v else fget f r end.
 
-Definition wenc_endpoints (e : list (fid * wire)) : wire :=
-  if ge_endpoints_codec E then
-    match flat_map (fun d => match fget (fd_fid d) e with Some w => [(fd_term d, w)] | None => [] end)
-                   (ge_layout_endpoints E) with
-    | [] => WEmpty
-    | m => WMap m
-    end
-  else WEmpty.
-
-(* one encoder call; [None] is the Go zero value of the field *)
-Definition wenc (c : wcodec) (ov : option pfval) : wire :=
+(* one encoder call that does not write a nested property map; [None] is the Go zero value of the field *)
+Definition wenc0 (c : wcodec) (ov : option pfval) : wire :=
   match c, ov with
   | (CwIri | CwType | CwRawBytes), Some (PLeaf (FStr s)) => wraw s
   | (CwMime | CwLangRef), Some (PLeaf (FStr s)) => wenc_mime s
   | CwNlv, Some (PLeaf (FNlv l)) => wenc_nlv l
   | CwTime, Some (PLeaf (FTime t)) => WTime t
   | CwTime, None => WTime vtime_zero
-  | CwSource, Some (PLeaf (FSource mt c)) => wenc_source mt c
-  | CwEndpoints, Some (PEndp e) => wenc_endpoints e
-  | CwPubKey, Some (PLeaf (FPubKey id owner pem)) => wenc_pubkey id owner pem
   | (CwItem | CwItemOrLink), Some (PItem w) => w
   | (CwItem | CwItemOrLink), Some (PItems l) => WList l       (* an ItemCollection field passed as an Item *)
+  | (CwItem | CwItemOrLink), Some (PLeaf (FStr s)) =>         (* an IRI field passed as an Item: a nil IRI writes no bytes *)
+      if iri_nilish s then WEmpty else wraw s
   | CwItems, Some (PItems l) => WList l
   | CwItems, (None | Some PNil) => WList []
   | CwInt64, Some (PLeaf (FDur z)) | CwInt64, Some (PLeaf (FInt z)) => WInt z
@@ -331,14 +311,14 @@ Definition wenc (c : wcodec) (ov : option pfval) : wire :=
 
 Definition wmap := list (bytes * wire).
 
-(* one statement of a map<T>Properties function *)
-Definition wstep (pfs : list (fid * pfval)) (st : wmap * bool) (e : gwentry) : wmap * bool :=
+(* one statement of a map<T>Properties function (or of the GobEncode method of a leaf struct) *)
+Definition wstep_gen (enc : wcodec -> option pfval -> wire) (pfs : list (fid * pfval)) (st : wmap * bool) (e : gwentry) : wmap * bool :=
   let '(mm, has) := st in
   match e with
   | GW f key cn gf g flag _ =>
       if guard_eval g has (fget gf pfs) then
         match wcodec_of cn with
-        | Some c => (aset key (wenc c (fget f pfs)) mm, has || flag)
+        | Some c => (aset key (enc c (fget f pfs)) mm, has || flag)
         | None => st
         end
       else st
@@ -346,12 +326,52 @@ Definition wstep (pfs : list (fid * pfval)) (st : wmap * bool) (e : gwentry) : w
   | GWDeleg _ _ _ | GWUnrecognised _ _ => st
   end.
 
-Definition gmap (tbl : list gwentry) (pfs : list (fid * pfval)) : wmap * bool :=
-  fold_left (wstep pfs) tbl ([], false).
+Definition gmap_gen (enc : wcodec -> option pfval -> wire) (tbl : list gwentry) (pfs : list (fid * pfval)) : wmap * bool :=
+  fold_left (wstep_gen enc pfs) tbl ([], false).
+
+(* the frame of T.GobEncode: no bytes at all when no statement set hasData, else the gob stream of the map *)
+Definition enc_map_gen (enc : wcodec -> option pfval -> wire) (tbl : list gwentry) (pfs : list (fid * pfval)) : wire :=
+  let '(mm, has) := gmap_gen enc tbl pfs in if has then WMap mm else WEmpty.
+
+(* the statements of T.GobEncode / ( *T).GobDecode for a leaf struct T *)
+Definition leaf_w (n : bytes) : list gwentry :=
+  match aget n (ge_leaf_w E) with Some p => fst p | None => [GWUnrecognised (B "no GobEncode method of this leaf struct") n] end.
+Definition leaf_r (n : bytes) : list grentry :=
+  match aget n (ge_leaf_r E) with Some p => fst p | None => [GRUnrecognised (B "no GobDecode method of this leaf struct") n] end.
+Definition leaf_layout (n : bytes) : list fdecl :=
+  match aget n (ge_leaf_layouts E) with Some l => l | None => [] end.
+
+Definition n_source : bytes := B "Source".
+Definition n_pubkey : bytes := B "PublicKey".
+Definition n_endpoints : bytes := B "Endpoints".
+
+(* the leaf structs as field lists *)
+Definition source_pfs (mt : bytes) (c : nlv) : list (fid * pfval) :=
+  [(F_MediaType, PLeaf (FStr mt)); (F_Content, PLeaf (FNlv c))].
+Definition pubkey_pfs (id owner pem : bytes) : list (fid * pfval) :=
+  [(F_ID, PLeaf (FStr id)); (F_Owner, PLeaf (FStr owner)); (F_PublicKeyPem, PLeaf (FStr pem))].
+
+(* Source.GobEncode (object.go), PublicKey.GobEncode, Endpoints.GobEncode (actor.go) *)
+Definition wenc_source (mt : bytes) (c : nlv) : wire := enc_map_gen wenc0 (leaf_w n_source) (source_pfs mt c).
+Definition wenc_pubkey (id owner pem : bytes) : wire := enc_map_gen wenc0 (leaf_w n_pubkey) (pubkey_pfs id owner pem).
+Definition wenc_endpoints (e : list (fid * pfval)) : wire :=
+  if ge_endpoints_codec E then enc_map_gen wenc0 (leaf_w n_endpoints) e else WEmpty.
+
+(* one encoder call *)
+Definition wenc (c : wcodec) (ov : option pfval) : wire :=
+  match c, ov with
+  | CwSource, Some (PLeaf (FSource mt c)) => wenc_source mt c
+  | CwEndpoints, Some (PEndp e) => wenc_endpoints e
+  | CwPubKey, Some (PLeaf (FPubKey id owner pem)) => wenc_pubkey id owner pem
+  | (CwSource | CwEndpoints | CwPubKey), _ => WEmpty
+  | _, _ => wenc0 c ov
+  end.
+
+Definition wstep := wstep_gen wenc.
+Definition gmap := gmap_gen wenc.
 
 (* T.GobEncode: nothing at all when no statement set hasData *)
-Definition enc_obj (k : kind) (pfs : list (fid * pfval)) : wire :=
-  let '(mm, has) := gmap (wtable k) pfs in if has then WMap mm else WEmpty.
+Definition enc_obj (k : kind) (pfs : list (fid * pfval)) : wire := enc_map_gen wenc (wtable k) pfs.
 
 Definition pfs_type (pfs : list (fid * pfval)) : bytes :=
   match fget F_Type pfs with Some (PLeaf (FStr s)) => s | _ => [] end.
@@ -396,8 +416,11 @@ with pre_fval (v : fval) : pfval :=
       PItems ((fix go (l : list item) : list wire := match l with [] => [] | x :: r => genc x :: go r end) l)
   | FEndpoints None => PNil
   | FEndpoints (Some e) =>
-      PEndp ((fix go (e : list (fid * item)) : list (fid * wire) :=
-                match e with [] => [] | (f, x) :: r => (f, genc x) :: go r end) e)
+      PEndp ((fix go (e : list (fid * item)) : list (fid * pfval) :=
+                match e with
+                | [] => []
+                | (f, x) :: r => (f, match x with INil => PNil | _ => PItem (genc x) end) :: go r
+                end) e)
   | _ => PLeaf v
   end.
 
@@ -461,56 +484,14 @@ Definition rdec_nlv_method (cur : nlv) (w : wire) : outcome nlv :=
 Definition rdec_mime (cur : bytes) (w : wire) : outcome bytes :=
   match w with WEmpty => Ok cur | _ => gd_bytes w end.
 
-(* Source.GobDecode *)
-Definition rdec_source (cur : option fval) (w : wire) : outcome fval :=
-  let '(mt0, c0) := match cur with Some (FSource mt c) => (mt, c) | _ => ([], None) end in
-  match w with
-  | WEmpty => Ok (FSource mt0 c0)
-  | _ =>
-      obind (gd_map w) (fun mm =>
-      obind (match aget (B "mediaType") mm with Some r => rdec_mime mt0 r | None => Ok mt0 end) (fun mt =>
-      obind (match aget (B "content") mm with Some r => rdec_nlv_method c0 r | None => Ok c0 end) (fun c =>
-      Ok (FSource mt c))))
-  end.
-
-(* PublicKey.GobDecode *)
-Definition rdec_pubkey (cur : option fval) (w : wire) : outcome fval :=
-  let '(id0, ow0, pem0) := match cur with Some (FPubKey a b c) => (a, b, c) | _ => ([], [], []) end in
-  match w with
-  | WEmpty => Ok (FPubKey id0 ow0 pem0)
-  | _ =>
-      obind (gd_map w) (fun mm =>
-      Ok (FPubKey (match aget (B "id") mm with Some r => wire_bytes_or_garbage r | None => id0 end)
-                  (match aget (B "owner") mm with Some r => wire_bytes_or_garbage r | None => ow0 end)
-                  (match aget (B "publicKeyPem") mm with Some r => wire_bytes_or_garbage r | None => pem0 end)))
-  end.
-
 Section Dec.
 Variable rec : wire -> outcome item.     (* gobDecodeItem on a nested byte string *)
 
 (* gobDecodeItems / tryDecodeItems *)
 Definition dec_items (w : wire) : outcome (list item) := obind (gd_list w) (omapM rec).
 
-(* gobDecodeEndpoints: a fresh Endpoints, the six items read from their keys *)
-Fixpoint dec_endpoint_fields (ds : list fdecl) (mm : wmap) : outcome (list (fid * item)) :=
-  match ds with
-  | [] => Ok []
-  | d :: r =>
-      match aget (fd_term d) mm with
-      | Some raw => obind (rec raw) (fun i => obind (dec_endpoint_fields r mm) (fun l => Ok ((fd_fid d, i) :: l)))
-      | None => dec_endpoint_fields r mm
-      end
-  end.
-
-Definition rdec_endpoints_fn (w : wire) : outcome fval :=
-  if ge_endpoints_codec E then
-    match w with
-    | WEmpty => Ok (FEndpoints (Some []))
-    | _ => obind (gd_map w) (fun mm => obind (dec_endpoint_fields (ge_layout_endpoints E) mm) (fun l => Ok (FEndpoints (Some l))))
-    end
-  else Ok (FEndpoints (Some [])).
-
-Definition rdec (c : rcodec) (cur : option fval) (w : wire) : outcome fval :=
+(* one decoder call that does not open a nested property map *)
+Definition rdec0 (c : rcodec) (cur : option fval) (w : wire) : outcome fval :=
   match c with
   | CrIri | CrType | CrString => Ok (FStr (wire_bytes_or_garbage w))
   | CrMime | CrLangRef =>
@@ -518,6 +499,73 @@ Definition rdec (c : rcodec) (cur : option fval) (w : wire) : outcome fval :=
   | CrNlvMethod => obind (rdec_nlv_method (cur_nlv cur) w) (fun l => Ok (FNlv l))
   | CrNlvFn => obind (rdec_nlv_method (Some []) w) (fun l => Ok (FNlv l))
   | CrTime => match w with WTime t => Ok (FTime t) | _ => Err end
+  | CrItem => obind (rec w) (fun i => Ok (FItem i))
+  | CrItems => obind (dec_items w) (fun l => Ok (FItems (Some l)))
+  | CrDuration => obind (gd_int w) (fun z => Ok (FDur z))
+  | CrInt64 => obind (gd_int w) (fun z => Ok (FInt z))
+  | CrUint => obind (gd_uint w) (fun n => Ok (FUint n))
+  | CrFloat => obind (gd_float w) (fun z => Ok (FFloat z))
+  | CrBool => obind (gd_bool w) (fun b => Ok (FBool b))
+  | CrSource | CrEndpointsMethod | CrEndpointsFn | CrPubKey => Err     (* not used one level down *)
+  end.
+
+(* one statement of an unmap<T>Properties function (or of the GobDecode method of a leaf struct) *)
+Definition rstep_gen (dec : rcodec -> option fval -> wire -> outcome fval) (mm : wmap)
+           (st : outcome (list (fid * fval))) (e : grentry) : outcome (list (fid * fval)) :=
+  obind st (fun fs =>
+  match e with
+  | GR f key cn _ =>
+      match aget key mm with
+      | None => Ok fs
+      | Some raw =>
+          match rcodec_of cn with
+          | Some c => obind (dec c (getf f fs) raw) (fun v => Ok (setf f v fs))
+          | None => Ok fs
+          end
+      end
+  | GRDeleg _ _ _ | GRUnrecognised _ _ => Ok fs
+  end).
+
+Definition gunmap_gen (dec : rcodec -> option fval -> wire -> outcome fval) (tbl : list grentry) (mm : wmap)
+           (init : list (fid * fval)) : outcome (list (fid * fval)) :=
+  fold_left (rstep_gen dec mm) tbl (Ok init).
+
+(* the frame of ( *T).GobDecode for a leaf struct T: empty input leaves the value as it is, else the
+   input must be a property map, which is read into the value *)
+Definition rdec_leaf (n : bytes) (cur : list (fid * fval)) (w : wire) : outcome (list (fid * fval)) :=
+  match w with
+  | WEmpty => Ok cur
+  | _ => obind (gd_map w) (fun mm => gunmap_gen rdec0 (leaf_r n) mm cur)
+  end.
+
+(* the leaf structs as field lists, and back *)
+Definition source_fields (cur : option fval) : list (fid * fval) :=
+  match cur with Some (FSource mt c) => setf F_MediaType (FStr mt) (setf F_Content (FNlv c) []) | _ => [] end.
+Definition source_of (fs : list (fid * fval)) : fval := FSource (get_str F_MediaType fs) (get_nlv F_Content fs).
+Definition pubkey_fields (cur : option fval) : list (fid * fval) :=
+  match cur with
+  | Some (FPubKey id owner pem) => setf F_ID (FStr id) (setf F_Owner (FStr owner) (setf F_PublicKeyPem (FStr pem) []))
+  | _ => []
+  end.
+Definition pubkey_of (fs : list (fid * fval)) : fval :=
+  FPubKey (get_str F_ID fs) (get_str F_Owner fs) (get_str F_PublicKeyPem fs).
+Definition endp_of (fs : list (fid * fval)) : list (fid * item) :=
+  flat_map (fun d => match getf (fd_fid d) fs with Some (FItem i) => [(fd_fid d, i)] | _ => [] end) (ge_layout_endpoints E).
+
+(* Source.GobDecode, PublicKey.GobDecode *)
+Definition rdec_source (cur : option fval) (w : wire) : outcome fval :=
+  obind (rdec_leaf n_source (source_fields cur) w) (fun fs => Ok (source_of fs)).
+Definition rdec_pubkey (cur : option fval) (w : wire) : outcome fval :=
+  obind (rdec_leaf n_pubkey (pubkey_fields cur) w) (fun fs => Ok (pubkey_of fs)).
+
+(* gobDecodeEndpoints: Endpoints.GobDecode into a fresh Endpoints *)
+Definition rdec_endpoints_fn (w : wire) : outcome fval :=
+  if ge_endpoints_codec E then
+    obind (rdec_leaf n_endpoints [] w) (fun fs => Ok (FEndpoints (Some (endp_of fs))))
+  else Ok (FEndpoints (Some [])).
+
+Definition rdec (c : rcodec) (cur : option fval) (w : wire) : outcome fval :=
+  match c with
   | CrSource => rdec_source cur w
   | CrEndpointsMethod =>
       (* Endpoints.GobDecode called through the field: the pinned code ignores input and (nil) receiver *)
@@ -529,41 +577,19 @@ Definition rdec (c : rcodec) (cur : option fval) (w : wire) : outcome fval :=
       else Ok (match cur with Some v => v | None => FEndpoints None end)
   | CrEndpointsFn => rdec_endpoints_fn w
   | CrPubKey => rdec_pubkey cur w
-  | CrItem => obind (rec w) (fun i => Ok (FItem i))
-  | CrItems => obind (dec_items w) (fun l => Ok (FItems (Some l)))
-  | CrDuration => obind (gd_int w) (fun z => Ok (FDur z))
-  | CrInt64 => obind (gd_int w) (fun z => Ok (FInt z))
-  | CrUint => obind (gd_uint w) (fun n => Ok (FUint n))
-  | CrFloat => obind (gd_float w) (fun z => Ok (FFloat z))
-  | CrBool => obind (gd_bool w) (fun b => Ok (FBool b))
+  | _ => rdec0 c cur w
   end.
 
-(* one statement of an unmap<T>Properties function *)
-Definition rstep (mm : wmap) (st : outcome (list (fid * fval))) (e : grentry) : outcome (list (fid * fval)) :=
-  obind st (fun fs =>
-  match e with
-  | GR f key cn _ =>
-      match aget key mm with
-      | None => Ok fs
-      | Some raw =>
-          match rcodec_of cn with
-          | Some c => obind (rdec c (getf f fs) raw) (fun v => Ok (setf f v fs))
-          | None => Ok fs
-          end
-      end
-  | GRDeleg _ _ _ | GRUnrecognised _ _ => Ok fs
-  end).
-
-Definition gunmap (tbl : list grentry) (mm : wmap) (init : list (fid * fval)) : outcome (list (fid * fval)) :=
-  fold_left (rstep mm) tbl (Ok init).
+Definition rstep := rstep_gen rdec.
+Definition gunmap := gunmap_gen rdec.
 
 (* struct order, as a Go value prints *)
 Definition canon_fields (k : kind) (fs : list (fid * fval)) : list (fid * fval) :=
   flat_map (fun d => match getf (fd_fid d) fs with Some v => [(fd_fid d, v)] | None => [] end) (ge_layout E k).
 
 (* the object branch of gobDecodeItem *)
-Definition dec_object (mm : wmap) : outcome item :=
-  let typ := match aget (B "type") mm with Some r => wire_bytes_or_garbage r | None => [] end in
+Definition dec_object (tkey : bytes) (mm : wmap) : outcome item :=
+  let typ := match aget tkey mm with Some r => wire_bytes_or_garbage r | None => [] end in
   match typer_kind typ with
   | None => Err
   | Some kc =>
@@ -578,33 +604,62 @@ Definition dec_object (mm : wmap) : outcome item :=
       end
   end.
 
-(* IRIs.GobDecode *)
+(* IRIs.GobDecode: nothing on empty input; the opaque value gobEncodeIRIs wrote (its content read the same
+   way); else any [][]byte, each element taken as the bytes of an IRI *)
 Fixpoint dec_iris (w : wire) : outcome (list bytes) :=
   match w with
   | WEmpty => Ok []
   | WOpaque i | WCat (WOpaque i) _ => dec_iris i
-  | WList l | WCat (WList l) _ =>
-      omapM (fun x => match wire_bytes x with Some b => Ok b | None => Err end) l
+  | WList l | WCat (WList l) _ => Ok (map wire_bytes_or_garbage l)
   | _ => Err
   end.
 
-Definition dec_step (w : wire) : outcome item :=
-  match dec_items w with
-  | Ok l => Ok (IItems false (Some l))
-  | _ =>
-      match dec_iris w with
-      | Ok l => Ok (IIris false (Some l))
-      | _ =>
-          let raw := Ok (IIri false (wire_bytes_or_garbage w)) in
-          match gd_map w with
-          | Ok mm =>
-              if ge_any_map_is_object E || (match aget (B "type") mm with Some _ => true | None => false end)
-                 || (match aget (B "id") mm with Some _ => true | None => false end)
-              then dec_object mm else raw
-          | _ => raw
-          end
-      end
+Definition has_key {A} (k : bytes) (m : list (bytes * A)) : bool := match aget k m with Some _ => true | None => false end.
+
+Definition fn_try_items : bytes := B "tryDecodeItems".
+Definition fn_try_iris : bytes := B "tryDecodeIRIs".
+Definition fn_try_iri : bytes := B "tryDecodeIRI".
+Definition fn_as_map : bytes := B "gobDecodeObjectAsMap".
+
+(* `if err := fn(&v, data); err == nil { return v, nil }`: None = the attempt failed, the next shape is
+   tried.  A panic is not an error return: it ends the call. *)
+Definition sniff_try (fn : bytes) (w : wire) : option (outcome item) :=
+  if bytes_eqb fn fn_try_items then
+    match dec_items w with
+    | Ok l => Some (Ok (IItems false (Some l)))
+    | Err => None
+    | Panic p => Some (Panic p)
+    | OutOfFuel => Some OutOfFuel
+    end
+  else if bytes_eqb fn fn_try_iris then
+    match dec_iris w with Ok l => Some (Ok (IIris false (Some l))) | _ => None end
+  else if bytes_eqb fn fn_try_iri then Some (Ok (IIri false (wire_bytes_or_garbage w)))   (* IRI.GobDecode never fails *)
+  else Some Err.                                                (* a function the model does not know *)
+
+Definition sniff_one (s : gsniff) (w : wire) : option (outcome item) :=
+  match s with
+  | GSTry fn _ => sniff_try fn w
+  | GSMap fn tkey always _ =>
+      if bytes_eqb fn fn_as_map then
+        match gd_map w with
+        | Ok mm =>
+            (* pinned: a map is an object only when it has a type or an id *)
+            if always || has_key tkey mm || has_key (B "id") mm then Some (dec_object tkey mm) else None
+        | _ => None
+        end
+      else Some Err
+  | GSFail _ => Some Err
+  | GSUnrecognised _ _ => Some Err
   end.
+
+Fixpoint sniff_run (l : list gsniff) (w : wire) : outcome item :=
+  match l with
+  | [] => Err
+  | s :: r => match sniff_one s w with Some o => o | None => sniff_run r w end
+  end.
+
+(* gobDecodeItem: the first shape that fits *)
+Definition dec_step (w : wire) : outcome item := sniff_run (ge_sniff E) w.
 End Dec.
 
 Fixpoint dec_fuel (n : nat) (w : wire) : outcome item :=
